@@ -62,6 +62,32 @@ example : lookup [((0 : Rat), (5 : Rat)), (17 / 2, 7), (43 / 2, 5)] (17 / 2) = .
 example : StrictTimes [((0 : Rat), (5 : Rat)), (17 / 2, 7), (43 / 2, 5)] := by
   simp [StrictTimes]; norm_num
 
+/-! ### the `Decimal` hour value (tou_tariff.py:113-117) -/
+
+/-- rounding bound of the model of `decimal` (any precision `p`, half-even): the result of rounding
+    `num/den` is within half a unit of its last place, `|roundQ p num den − num/den| ≤ ½·10^e` with
+    `e` the exponent of the result, and `e ≤ digits(num) − digits(den) − p + 1`, i.e. with
+    `p = 28` at most `5·10^(E−28)` for a value of decimal exponent `E`. -/
+theorem decimal_rounding_bound (p num den : Nat) (hden : 0 < den) (hnum : num ≠ 0) :
+    |(roundQ p num den).toRat - (num : ℚ) / den| ≤ 1 / 2 * (10 : ℚ) ^ (roundQ p num den).e ∧
+    (roundQ p num den).e ≤ (ndigits num : ℤ) - ndigits den - p + 1 :=
+  ⟨roundQ_err p num den hden, roundQ_exp_le p num den hnum⟩
+
+/-- for every whole second `h:m:s` that is not a whole minute, `Decimal(h) + Decimal(m)/60 +
+    Decimal(s)/3600` is within 1.2·10⁻²⁶ of `(3600h + 60m + s)/3600` -/
+theorem decimal_hour_close (h m s : Nat) (hh : h < 24) (hm : m < 60) (hs0 : 1 ≤ s) (hs : s < 60) :
+    |(targetHour h m s).toRat - (secOfDay h m s : ℚ) / 3600| ≤ 12 / 10 ^ 27 :=
+  target_hour_close h m s hh hm hs0 hs
+
+/-- for ALL 86 400 seconds of the day, comparing the `Decimal` hour value with a half-hour
+    breakpoint `k/2` is the same as comparing whole seconds -/
+theorem decimal_no_flip (h m s : Nat) (hh : h < 24) (hm : m < 60) (hs : s < 60) (k : Nat) :
+    (k : ℚ) / 2 ≤ (targetHour h m s).toRat ↔ 1800 * k ≤ secOfDay h m s :=
+  target_hour_no_flip h m s hh hm hs k
+
+example : (targetHour 8 29 59).toRat < 17 / 2 ∧ (17 : ℚ) / 2 ≤ (targetHour 8 30 0).toRat := by
+  decide +kernel
+
 /-! ### schedule selection + lookup -/
 
 /-- exactly one valid schedule ⇒ `_get_tariff_schedule` returns it -/
@@ -112,14 +138,15 @@ theorem get_tariff_spec {K : Type} [LT K] [DecidableLT K] (l : List (Schedule K)
     rw [hsel]
     exact hl
 
-/-- the same in whole seconds: with half-hour breakpoints the returned rate is that of the
-    greatest breakpoint `k/2 h` with `1800·k ≤ seconds since midnight`, whenever the executable
-    Decimal check `flipOk` holds for the instant (kernel-checked for every whole minute and ±1 s
-    around every half hour in `flipOk_whole_minutes` / `flipOk_around_half_hours`; executed by the
-    driver and compared with CPython's `Decimal` for all 86 400 seconds of the day in the check). -/
+/-- the same in whole seconds, for ALL 86 400 seconds of the day: with half-hour breakpoints the
+    returned rate is that of the greatest breakpoint `k/2 h` with `1800·k ≤ seconds since midnight`.
+    The 28-digit `Decimal` hour value cannot flip a comparison (`target_hour_no_flip`: half-ulp
+    rounding bound `roundQ_err` ⇒ the value is within 1.2·10⁻²⁶ of the exact rational, while every
+    second that is not a whole minute is ≥ 1/3600 h from a half hour; whole minutes by a
+    kernel-checked table). -/
 theorem get_tariff_seconds_spec {K : Type} [LT K] [DecidableLT K] (l : List (Schedule K))
     (md : Nat × Nat) (wd h m s : Nat) (hone : countValid l md wd = 1)
-    (hbp : ∀ sch ∈ l, breakpointsOk sch = true) (hok : flipOk h m s = true) :
+    (hbp : ∀ sch ∈ l, breakpointsOk sch = true) (hh : h < 24) (hm : m < 60) (hs : s < 60) :
     ∃ sch ∈ l, selectSchedule l md wd = .ok sch ∧ ∃ p ∈ sch.tariffs, ∃ kp : Nat,
       getTariff l md wd h m s = .ok p.2 ∧ p.1 = (kp : ℚ) / 2 ∧ 1800 * kp ≤ secOfDay h m s ∧
       ∀ q ∈ sch.tariffs, ∀ kq : Nat, q.1 = (kq : ℚ) / 2 → 1800 * kq ≤ secOfDay h m s → kq ≤ kp := by
@@ -136,16 +163,30 @@ theorem get_tariff_seconds_spec {K : Type} [LT K] [DecidableLT K] (l : List (Sch
     rw [this, hnum]; ring
   · have hk : (((p.1 * 2).num.toNat : ℕ) : ℚ) / 2 = p.1 := by
       rw [← Int.cast_natCast, Int.toNat_of_nonneg hnum0, hnum]; ring
-    rw [← no_flip_of_flipOk h m s hok, hk]; exact hpx
+    rw [← target_hour_no_flip h m s hh hm hs, hk]; exact hpx
   · intro q hq kq hqk hle
     have hqx : q.1 ≤ (targetHour h m s).toRat := by
-      rw [hqk]; exact (no_flip_of_flipOk h m s hok kq).mpr hle
+      rw [hqk]; exact (target_hour_no_flip h m s hh hm hs kq).mpr hle
     have := hmax q hq hqx
     have hk : (((p.1 * 2).num.toNat : ℕ) : ℚ) / 2 = p.1 := by
       rw [← Int.cast_natCast, Int.toNat_of_nonneg hnum0, hnum]; ring
     rw [hqk, ← hk] at this
     have : (kq : ℚ) ≤ ((p.1 * 2).num.toNat : ℕ) := by linarith
     exact_mod_cast this
+
+/-- `get_tariff` at ANY instant `t` (seconds since the epoch, any sign, any year) of a tariff whose
+    complete table has exactly one valid schedule everywhere and whose breakpoints are in order:
+    the rate of the unique valid schedule at the latest breakpoint at or before the time of day. -/
+theorem get_tariff_at_spec {K : Type} [LT K] [DecidableLT K] (l : List (Schedule K))
+    (htab : ∀ md ∈ days366, ∀ wd < 7, countValid l md wd = 1)
+    (hbp : ∀ sch ∈ l, breakpointsOk sch = true) (t : Int) :
+    ∃ sch ∈ l, selectSchedule l (fieldsOf t).md (fieldsOf t).wd = .ok sch ∧ ∃ p ∈ sch.tariffs, ∃ kp : Nat,
+      getTariffAt l t = .ok p.2 ∧ p.1 = (kp : ℚ) / 2 ∧
+      1800 * kp ≤ secOfDay (fieldsOf t).h (fieldsOf t).m (fieldsOf t).s ∧
+      ∀ q ∈ sch.tariffs, ∀ kq : Nat, q.1 = (kq : ℚ) / 2 →
+        1800 * kq ≤ secOfDay (fieldsOf t).h (fieldsOf t).m (fieldsOf t).s → kq ≤ kp := by
+  obtain ⟨hmd, hwd, hh, hm, hs⟩ := fields_in_table t
+  exact get_tariff_seconds_spec l _ _ _ _ _ (htab _ hmd _ hwd) hbp hh hm hs
 
 /-- totality at every instant of any year: if the complete 366 × 7 table has exactly one valid
     schedule everywhere and all breakpoint lists are in order, `get_tariff` and
@@ -180,6 +221,35 @@ theorem getTariffs_eq_map {K : Type} [LT K] [DecidableLT K] (l : List (Schedule 
     exact ⟨hlen.symm, fun t ht => h t (by omega) ht⟩
   · rintro ⟨hlen, h⟩
     exact ⟨hlen.symm, fun t _ ht => h t ht⟩
+
+/-- the same for an arbitrary microsecond start and an arbitrary `timedelta` step (float periods,
+    sub-second periods, microsecond starts): element `t` is the tariff of the second that contains
+    `start + t·step` -/
+theorem getTariffsUs_eq_map {K : Type} [LT K] [DecidableLT K] (l : List (Schedule K)) (startUs : Int)
+    (n : Nat) (stepUs : Int) (v : List K) :
+    getTariffsUs l startUs n stepUs = .ok v ↔
+      v.length = n ∧ ∀ t (ht : t < v.length),
+        getTariffAt l ((startUs + (t : Int) * stepUs) / 1000000) = .ok v[t] := by
+  unfold getTariffsUs
+  rw [mapM_ok_iff, List.forall₂_iff_get]
+  simp only [List.length_range, List.get_eq_getElem, List.getElem_range]
+  constructor
+  · rintro ⟨hlen, h⟩
+    exact ⟨hlen.symm, fun t ht => h t (by omega) ht⟩
+  · rintro ⟨hlen, h⟩
+    exact ⟨hlen.symm, fun t _ ht => h t ht⟩
+
+/-- whole-second starts and whole-minute periods are the special case -/
+theorem getTariffs_eq_getTariffsUs {K : Type} [LT K] [DecidableLT K] (l : List (Schedule K))
+    (start : Int) (n period : Nat) :
+    getTariffs l start n period = getTariffsUs l (start * 1000000) n ((period : Int) * 60 * 1000000) := by
+  unfold getTariffs getTariffsUs
+  congr 1
+  funext t
+  congr 1
+  have : start * 1000000 + (t : Int) * ((period : Int) * 60 * 1000000) =
+      (start + (t : Int) * ((period : Int) * 60)) * 1000000 := by ring
+  rw [this, Int.mul_ediv_cancel _ (by norm_num)]
 
 /-- `Interface.get_prices(n, idx)`: element `t` is the tariff at `sim.start + (idx + t)·period`. -/
 theorem interface_prices_aligned {K : Type} [LT K] [DecidableLT K] (l : List (Schedule K))
